@@ -23,7 +23,7 @@ type PairCase struct {
 	Opts string `json:"opts"`
 }
 
-var c01OptSets = []string{"list", "set", "mset", "setkeys:id", "setkeys:id,k", "merge", "set+merge", "mset+merge", "set+mset", "mset+set", "setkeys:id+mset", "prec:0", "merge+prec:0"}
+var c01OptSets = []string{"list", "set", "mset", "setkeys:id", "setkeys:id,k", "merge", "set+merge", "mset+merge", "set+mset", "mset+set", "setkeys:id+mset", "prec:0", "merge+prec:0", "setkeys:id,k,a"}
 
 // profileFor returns a generator profile that respects the preconditions
 // of the option set (null-free for merge, complete unique keys for setkeys).
@@ -217,6 +217,30 @@ func checkC01(c PairCase, r *rec.Rec) error {
 	d, pmsg, panicked := jdx.DiffSafe(a, b, opts)
 	if panicked {
 		return rec.Violated("Diff panicked: %s", pmsg)
+	}
+	// The most direct use: the very value that was diffed is patched with the
+	// diff it returned (the diff may share storage with it).
+	{
+		a0 := jdx.NodeText(c.A)
+		d0, msg0, p0 := jdx.DiffSafe(a0, jdx.NodeText(c.B), opts)
+		if p0 {
+			return rec.Violated("Diff panicked: %s", msg0)
+		}
+		shown := d0.Render()
+		same := jdx.Patch(a0, d0)
+		sviol := rec.Violated
+		if ks := jdx.SetKeysOf(c.Opts); ks != nil && ((len(ks) >= 2 && permutedKeyTuples(ks, av, bv)) || respelledCopies(ks, av)) {
+			sviol = func(f string, a ...interface{}) error { return rec.Known("D21", f, a...) }
+			if respelledCopies(ks, av) {
+				sviol = func(f string, a ...interface{}) error { return rec.Known("D41", f, a...) }
+			}
+		}
+		if !same.OK() {
+			return sviol("a.Patch(a.Diff(b)) on the same value %s\ndiff:\n%s", okWord(same), shown)
+		}
+		if !same.Node.Equals(jdx.NodeText(c.B), opts...) {
+			return sviol("a.Patch(a.Diff(b)) on the same value = %s does not Equal b = %s under %s\ndiff:\n%s", same.Node.Json(), c.B, c.Opts, shown)
+		}
 	}
 	// The diff value exactly as returned, applied to a fresh parse of a.
 	out := jdx.Patch(jdx.NodeText(c.A), d)
